@@ -32,6 +32,8 @@ pub const C05_RULES: &[&str] = &[
     "final_content_differs",
     "final_index_unreadable",
     "commit_identity_differs",
+    "content_differs_after_merge",
+    "index_unreadable_after_merge",
 ];
 pub const C02_ONLY_RULES: &[&str] = &["commit_not_a_sequential_order_of_concurrent_calls"];
 pub const C04_RULES: &[&str] = &["content_differs_after_merge", "index_unreadable_after_merge", "final_content_differs", "final_index_unreadable", "reload_moved_back", "commit_identity_differs"];
@@ -56,7 +58,7 @@ fn relevant(prop: &str, k: &Kind) -> bool {
         (_, Kind::MergeVsOpsFault { .. }) => false,
         ("C11", _) => false,
         ("C04" | "C02", _) => false,
-        ("C05", Kind::GcVsWriters { .. } | Kind::MergeVsOps { .. } | Kind::OverlappingMerges { .. }) => false,
+        ("C05", Kind::GcVsWriters { .. } | Kind::GcVsSortedWriters { .. } | Kind::MergeVsOps { .. }) => false,
         ("C10", Kind::OverlappingMerges { .. } | Kind::CommitVsMergeEnd) => false,
         _ => true,
     }
